@@ -49,6 +49,8 @@ def gen_grammar(r, big=False):
         nattr = r.range(1, 4) if ci == 0 else r.weighted([(0, 2), (1, 4), (2, 4), (3, 2)])
         for ai in range(nattr):
             kind = r.weighted([("one", 4), ("many", 5), ("ref", 2), ("refs", 2), ("prim", 2), ("objtyped", 1)])
+            if ci == 0 and ai == 0:
+                kind = "many"
             name = "f%d" % ai
             if kind in ("one", "many"):
                 t = r.choice(types)
